@@ -1353,6 +1353,7 @@ def generic_rules(prop, index, rep):
         npc = protocol_rule(index, rep, rid5, mods + ["dendropy.utility.error"])
         npc += resized_while_iterated_rule(index, rep, rid5, mods)
         npc += called_method_exists_rule(index, rep, rid5, mods)
+        npc += container_formatted_rule(index, rep, rid5, mods)
         rep.ob(rid5, "src/dendropy", "%d in-place operator methods and format calls examined" % npc, True, nontrivial=npc > 0)
     rid6 = "R%s.D" % prop[1:]
     rep.rule(rid6, "literal dispatch chains in the property's modules have no dead branch: no branch of an if/elif chain over string keywords tests only keywords that an earlier branch already accepts")
@@ -1461,6 +1462,58 @@ def alias_restore_rule(index, rep, rid, modules):
                 if muts:
                     rep.check(False, rid, fi.qualname, "`%s` restored from an alias of itself" % tgt, fn_where(fi, st), "",
                               "%s saves `%s = %s`, changes `%s` IN PLACE (`%s`) and then 'restores' it with `%s`: `%s` is the same object that was changed, so nothing is restored and the temporary setting stays in force for the rest of the run - save a copy (set(...) / list(...) / dict(...)) instead" % (fi.qualname, st.value.id, tgt, tgt, norm(muts[0])[:50] if not isinstance(muts[0], ast.stmt) else norm_stmt(muts[0])[:50], norm_stmt(st)[:60], st.value.id))
+    return n
+
+
+def container_formatted_rule(index, rep, rid, modules):
+    """a set / list / dict is not text: a name that the function binds only to container displays or constructors
+    (set(), [], {}, comprehensions) and fills with add / append is not handed to `%s` or `{}` as it is - what gets
+    written is the container's Python repr (`{'x={ab}'}`), in arbitrary order for a set."""
+    n = 0
+    for m in modules:
+        for fi in index.functions_in_module(m):
+            binds = {}
+            for st in walk_no_nested(fi.node):
+                if isinstance(st, ast.Assign):
+                    for t in st.targets:
+                        if isinstance(t, ast.Name):
+                            binds.setdefault(t.id, []).append(st.value)
+                elif isinstance(st, (ast.For, ast.AugAssign, ast.With)):
+                    tg = st.target if isinstance(st, (ast.For, ast.AugAssign)) else None
+                    if tg is not None:
+                        for x in ast.walk(tg):
+                            if isinstance(x, ast.Name):
+                                binds.setdefault(x.id, []).append(None)
+            conts = {nm for nm, vs in binds.items() if nm not in fi.all_params and vs and all(v is not None and (isinstance(v, (ast.Set, ast.List, ast.Dict, ast.SetComp, ast.ListComp, ast.DictComp)) or (isinstance(v, ast.Call) and isinstance(v.func, ast.Name) and v.func.id in ("set", "list", "dict", "frozenset") )) for v in vs)}
+            if not conts:
+                continue
+            for b in ast.walk(fi.node):
+                args = None
+                if isinstance(b, ast.BinOp) and isinstance(b.op, ast.Mod) and isinstance(b.left, ast.Constant) and isinstance(b.left.value, str):
+                    args = list(b.right.elts) if isinstance(b.right, ast.Tuple) else [b.right]
+                    tmpl = b.left.value
+                elif isinstance(b, ast.Call) and isinstance(b.func, ast.Attribute) and b.func.attr == "format" and isinstance(b.func.value, ast.Constant) and isinstance(b.func.value.value, str):
+                    args = list(b.args) + [k.value for k in b.keywords]
+                    tmpl = b.func.value.value
+                if not args:
+                    continue
+                n += 1
+                if "%r" in tmpl or "!r" in tmpl:
+                    continue        # a repr was asked for (messages)
+                # messages of exceptions / warnings / logs may show a container as it is
+                pm = parent_map(fi.node)
+                q = pm.get(b)
+                in_msg = False
+                while q is not None and not isinstance(q, ast.stmt):
+                    if isinstance(q, ast.Call) and (call_name(q).endswith("Error") or call_name(q).endswith("Exception") or call_name(q) in ("warn", "info", "debug", "warning", "error", "_nexus_error", "_data_parse_error") or "message" in call_name(q) or "warn" in call_name(q) or "log" in call_name(q).lower()):
+                        in_msg = True
+                    q = pm.get(q)
+                if in_msg or isinstance(q, ast.Raise) or (isinstance(q, ast.Expr) and isinstance(q.value, ast.Call) and call_name(q.value) in ("warn", "info", "debug", "warning", "error", "write_to_stderr")):
+                    continue
+                for a in args:
+                    if isinstance(a, ast.Name) and a.id in conts:
+                        rep.check(False, rid, fi.qualname, "container `%s` formatted as text" % a.id, fn_where(fi, b), "",
+                                  "%s puts `%s` - bound only to %s and filled in place - into the template %r as it is: what is written is the Python repr of the container (braces, quotes, commas; arbitrary order for a set), not the items" % (fi.qualname, a.id, "/".join(sorted({type(v).__name__ if not isinstance(v, ast.Call) else v.func.id + "()" for v in binds[a.id]})), tmpl[:30]))
     return n
 
 
